@@ -620,6 +620,9 @@ def tasks_for(tier):
             T.append(dict(part="script", module="mon/MC_Monitor", cfg="MC_MonScript_w0f3.cfg", env={"C20_KLO": i, "C20_KHI": i}, classes=1))
         T.append(dict(part="file", module="mon/MC_LogFile", cfg="MC_LogFile_quick.cfg", env={"C20_OSTEP": 3}))
         T.append(dict(part="sources", module="mon/MC_LogFile", cfg="MC_LogSrc_quick.cfg", env={"C20_OLO": 5, "C20_OHI": 5}))
+        # numbers that take more than one digit in the log: 12 records with an id (iterations (10, 3), (11, 3)), ids 12
+        T.append(dict(part="file", module="mon/MC_LogFile", cfg="MC_LogFile_long_a.cfg", env={}))
+        T.append(dict(part="file", module="mon/MC_LogFile", cfg="MC_LogFile_long_b.cfg", env={}))
         T.append(dict(part="null", module="mon/MC_Monitor", cfg="MC_MonNull_quick.cfg", env={"C20_KLO": 1, "C20_KHI": 3}, classes=2, views=True))
         T.append(dict(part="set", module="mon/MC_Monitor", cfg="MC_MonSet_quick.cfg", env={"C20_KLO": 2, "C20_KHI": 2}, classes=1, views=True))
         T.append(dict(part="set", module="mon/MC_Monitor", cfg="MC_MonSet_f1.cfg", env={"C20_KLO": 1, "C20_KHI": 6}, classes=2, views=True))
@@ -643,6 +646,8 @@ def tasks_for(tier):
             for fk in (NONE, 1, 2, -1):
                 T.append(dict(part="file", module="mon/MC_LogFile", cfg="MC_LogFile_thorough.cfg",
                               env={"C20_OLO": o, "C20_OHI": o + 1, "C20_FK": fk}))
+        T.append(dict(part="file", module="mon/MC_LogFile", cfg="MC_LogFile_long_a.cfg", env={}))
+        T.append(dict(part="file", module="mon/MC_LogFile", cfg="MC_LogFile_long_b.cfg", env={}))
         for o, fk in ((2, NONE), (7, 1), (11, 2), (14, -1)):
             T.append(dict(part="sources", module="mon/MC_LogFile", cfg="MC_LogSrc_thorough.cfg",
                           env={"C20_OLO": o, "C20_OHI": o, "C20_FK": fk}))
